@@ -149,6 +149,15 @@ def run_shard(job):
         elif kind is None:
             if rc < 0:
                 kind = f"signal-{-rc}"
+            elif rc == 101 and re.search(r"HARNESS PANIC at (multiboot2[\w-]*/src/[\w/]+\.rs:\d+)", err):
+                # a panic *inside the library* at a call the driver makes outside its
+                # outcome classifier, i.e. where no panic is allowed to happen
+                site = re.search(r"HARNESS PANIC at (multiboot2[\w-]*/src/[\w/]+\.rs:\d+)", err).group(1)
+                kind = "library-panic-where-none-is-allowed"
+                detail = err[-1500:]
+                mcp = re.search(r"HARNESS PANIC at \S+ case=(\d+) pos=(\d+)", err)
+                if mcp and case is None:
+                    case, pos = int(mcp.group(1)), int(mcp.group(2))
             elif "panicked" in err or rc == 101:
                 # a panic that escaped the harness = harness bug -> inconclusive
                 res.inconclusive.append(f"{engine} shard {shard}/{nshards}: harness error rc={rc}: {err[-400:]}")
